@@ -918,6 +918,12 @@ subroutine solve(initial_values, indexes,                                       
      ! Errors: Raise as required
      else if(error_control == error_control_raise) then
         return
+
+     ! Indexing and offset errors: Always halt (the calling code raises an
+     ! exception for these, whatever the value of `error_control`)
+     else if((error_code >= index_error_below .and. error_code <= index_error_leads) .or.  &
+          &  error_code == offset_predates_span .or. error_code == offset_postdates_span) then
+        return
      end if
 
   end do
